@@ -181,12 +181,14 @@ class GatedLinearUnit(Transform):
     def forward(self, inputs, context=None):
         gate = torch.sigmoid(context)
         # return inputs * (1 + gate), torch.log(torch.ones_like(gate) + gate).reshape(-1)
-        return inputs * gate, torch.log(gate).reshape(-1)
+        logabsdet = torchutils.sum_except_batch(torch.log(gate).expand_as(inputs))
+        return inputs * gate, logabsdet
 
     def inverse(self, inputs, context=None):
         gate = torch.sigmoid(context)
         # return inputs / (1 + gate), - torch.log(torch.ones_like(gate) + gate).reshape(-1)
-        return inputs / gate, -torch.log(gate).reshape(-1)
+        logabsdet = -torchutils.sum_except_batch(torch.log(gate).expand_as(inputs))
+        return inputs / gate, logabsdet
 
 
 class CauchyCDF(Transform):
